@@ -3,17 +3,17 @@
 # Applies every seeded/<round-dir>/<id>/patch*.diff in turn to a SCRATCH worktree of /repo's main (not to /repo itself, so
 # checks running elsewhere are not disturbed), runs the quick checks against it with a separate target and output directory.
 RD="$1"; ID="$2"; shift; shift; CHECKS="${@:-$ID}"
-cd /verif
-WT=/tmp/seedrepo; OUT=/tmp/seedverif
+V="$(cd "$(dirname "${BASH_SOURCE[0]}")/.." && pwd)"; cd "$V"
+L=${LANE:-}; WT=/tmp/seedrepo$L; OUT=/tmp/seedverif$L
 if [ ! -d $WT ]; then git -C /repo worktree prune; git -C /repo worktree add -q --detach $WT main || exit 2; fi
 git -C $WT checkout -q --detach main && git -C $WT reset -q --hard main
-mkdir -p $OUT/evidence $OUT/replays; cp /verif/known_findings.json $OUT/
-export VERIF_REPO=$WT VERIF_TARGET=/verif/target_seed VERIF_DIR=$OUT
+mkdir -p $OUT/evidence $OUT/replays; cp $V/known_findings.json $OUT/
+export VERIF_REPO=$WT VERIF_TARGET=/verif/target_seed$L VERIF_DIR=$OUT
 for p in seeded/$RD/$ID/patch*.diff; do
   [ -f "$p" ] || continue
   case "$p" in *.rebased.diff) continue;; esac
   q="${p%.diff}.rebased.diff"; [ -f "$q" ] && p="$q"
-  if ! (cd $WT && git apply -3 "/verif/$p" >/dev/null 2>&1); then echo "$p: DOES-NOT-APPLY"; git -C $WT reset -q --hard main; continue; fi
+  if ! (cd $WT && git apply -3 "$V/$p" >/dev/null 2>&1); then echo "$p: DOES-NOT-APPLY"; git -C $WT reset -q --hard main; continue; fi
   for c in $CHECKS; do
     out=$(./check $c 2>&1); rc=$?
     nviol=$(echo "$out" | grep -c "^VIOLATION")
